@@ -9,6 +9,7 @@ cd $WT && git checkout -q -- . && git clean -fdq -e target
 cargo build --offline -j 12 --bin zydeco > /dev/null 2>&1
 WT=$WT sh $SEED/demo.sh > $LOG/original.log 2>&1; echo "exit=$?" >> $LOG/original.log
 git apply $SEED/patch.diff || { echo "PATCH DOES NOT APPLY" > $LOG/with_change.log; exit 1; }
+cargo build --offline -j 12 --bin zydeco > $LOG/build_with_change.log 2>&1 || echo "DOES NOT COMPILE" >> $LOG/build_with_change.log
 WT=$WT sh $SEED/demo.sh > $LOG/with_change.log 2>&1; echo "exit=$?" >> $LOG/with_change.log
 ARGS=""; for p in "$@"; do ARGS="$ARGS -p $p"; done
 cargo test --offline -j 12 --no-fail-fast $ARGS 2>&1 | grep -E "^test .*FAILED|test result" > $LOG/suite_with_change.log
